@@ -65,13 +65,14 @@ THEOREM = {
 }
 # theorems that are weaker than extensional equality (say so in the obligation)
 PARTIAL = {'matches': 'hand model compares exactly, the code with np.allclose: only `exact match => code match` and the '
-                      'order/periodicity refusal are proved',
-           'insert_knot': 'the equality theorem covers every basis outside the cover branch (non-periodic, or periodic with '
-                          'at least p+k functions); the recursive cover branch (periodic, n < p+k) is translated (fuel '
-                          'recursion) and elaborated, its agreement with the hand model is checked by the C04 correspondence '
-                          'run only'}
+                      'order/periodicity refusal are proved'}
 # corollaries audited together with the main theorems
-EXTRA_THEOREMS = ('PyBasis_insert_knot_eq_sorted', 'PyBasis_init_eq_full')
+# (`PyBasis_insert_knot_eq_cover`: the cover branch — periodic, n < p+k, the recursive refinement of the R-fold cover —
+# under the guards of the recursive calls, which `C04_source_insert_knot_small` (Lemmas/C04PyCover.lean, audited by the
+# C04 check) discharges for every valid periodic basis)
+EXTRA_BY_KEY = {'insert_knot': ('PyBasis_insert_knot_eq_sorted', 'PyBasis_insert_knot_eq_cover'),
+                '__init__': ('PyBasis_init_eq_full',)}
+EXTRA_THEOREMS = tuple(t for ts in EXTRA_BY_KEY.values() for t in ts)
 # translated for completeness, no hand model to compare with: obligation = translates and elaborates
 TRANSLATION_ONLY = ('init_default', 'greville_at')
 
@@ -277,7 +278,7 @@ def _run(src, lean_dir):
             elif not set(ax) <= ALLOWED_AXIOMS:
                 failed[key] = 'theorem %s uses axioms %s' % (thm, ','.join(sorted(set(ax) - ALLOWED_AXIOMS)))
             elif key in ('insert_knot', '__init__'):
-                for ex in EXTRA_THEOREMS[:1] if key == 'insert_knot' else EXTRA_THEOREMS[1:]:
+                for ex in EXTRA_BY_KEY[key]:
                     axx = axioms.get(ex)
                     if axx is None or not set(axx) <= ALLOWED_AXIOMS:
                         failed[key] = 'corollary %s did not check or uses other axioms (%r)' % (ex, axx)
@@ -369,6 +370,8 @@ MUTS = {
  'ctor_short_periodic': ("            if n < p + k + 1:\n", "            if n < p + k:\n", ['__init__']),
  'continuity_end_tol':  ("elif knot < self.start() - state.knot_tolerance or self.end() + state.knot_tolerance < knot:",
                          "elif knot < self.start() - state.knot_tolerance or self.end() < knot:", ['continuity']),
+ 'ctor_no_cummax':      ("        self.knots = np.maximum.accumulate(self.knots)\n", "", ['__init__']),
+ 'roll_no_cummax':      ("        np.maximum.accumulate(self.knots, out=self.knots)\n", "", ['roll']),
  'continuity_bisect': ("hi = bisect_left(self.knots, knot + state.knot_tolerance)", "hi = bisect_right(self.knots, knot + state.knot_tolerance)", ['continuity']),
  'insert_drop_ghost': ("            if mu <= p+r: # need to fix ghost knots on right side", "            if False and mu <= p+r: # need to fix ghost knots on right side", ['insert_knot']),
  'insert_coef':       ("C[i % (n + 1), i % n] = (new_knot - self.knots[i]) / (", "C[i % (n + 1), i % n] = (new_knot - self.knots[i+1]) / (", ['insert_knot']),
